@@ -250,6 +250,32 @@ def pair_list():
     b = lib([decl("double f2(double *x, int n)", attrs={"x": {"intent": "in", "rank": 1}, "n": {"value": True}}),
              decl("int *g2(int n)", fattrs={"dimension": 10}), decl("const std::string & g3()", fattrs={"len": 30})])
     pairs.append(("attrs-syntax", a, [], b, [], False, None))
+    # ... one pair per documented attribute (docs/input.rst "Attributes"): function attributes under fattrs,
+    # argument attributes under attrs
+    for tag, inline, plain, kw in (
+            ("fattrs:name", "void f9(int a) +name(renamed)", "void f9(int a)", {"fattrs": {"name": "renamed"}}),
+            ("fattrs:owner+deref", "int *g4(int n) +dimension(n)+deref(pointer)+owner(caller)", "int *g4(int n)",
+             {"fattrs": {"dimension": "n", "deref": "pointer", "owner": "caller"}}),
+            ("fattrs:deref-allocatable", "const char *g5() +deref(allocatable)", "const char *g5()", {"fattrs": {"deref": "allocatable"}}),
+            ("attrs:charlen", "void s1(char *out +intent(out)+charlen(20))", "void s1(char *out)",
+             {"attrs": {"out": {"intent": "out", "charlen": 20}}}),
+            ("attrs:implied", "int f5(const double *x +rank(1), int n +implied(size(x)))", "int f5(const double *x, int n)",
+             {"attrs": {"x": {"rank": 1}, "n": {"implied": "size(x)"}}}),
+            ("attrs:dimension", "void f6(double *x +intent(out)+dimension(n), int n)", "void f6(double *x, int n)",
+             {"attrs": {"x": {"intent": "out", "dimension": "n"}}}),
+            ("attrs:deref+owner", "void f7(int **x +intent(out)+dimension(3)+deref(pointer)+owner(library))", "void f7(int **x)",
+             {"attrs": {"x": {"intent": "out", "dimension": 3, "deref": "pointer", "owner": "library"}}}),
+            ("attrs:len", "void s2(std::string &s +intent(out)+len(Ls))", "void s2(std::string &s)",
+             {"attrs": {"s": {"intent": "out", "len": "Ls"}}}),       # for an argument the value is a name
+            ("attrs:hidden", "void f8(int a, int b +hidden)", "void f8(int a, int b)", {"attrs": {"b": {"hidden": True}}})):
+        a = lib([decl(F1), decl(inline)])
+        b = lib([decl(F1), decl(plain, **kw)])
+        pairs.append(("attrs-syntax:" + tag, a, [], b, [], False, None))
+    # a constructor renamed inline / under fattrs
+    a = lib([{"decl": "class Widget", "declarations": [decl("Widget() +name(create)"), decl("~Widget() +name(destroy)"), decl("int size() const")]}])
+    b = lib([{"decl": "class Widget", "declarations": [decl("Widget()", fattrs={"name": "create"}), decl("~Widget()", fattrs={"name": "destroy"}),
+                                                       decl("int size() const")]}])
+    pairs.append(("attrs-syntax:fattrs:ctor-name", a, [], b, [], False, None))
     # command line vs YAML
     for k, v, txt in (("F_force_wrapper", True, "true"), ("debug", False, "false"), ("F_string_len_trim", False, "False"),
                       ("wrap_python", True, "true"), ("C_line_length", 60, "60")):
